@@ -706,14 +706,19 @@ func handleInputStream(s *Session, handler Handler) (err error) {
 			}:
 				verifhook.Yield("session.serve.handed")
 				<-readerChan.c
+				// Consume the rest of the stream before continuing the loop.
+				_, err = xmlstream.Copy(discard, inner)
+				if err != nil {
+					return err
+				}
+				return nil
 			case <-readerChan.ctx.Done():
+				// The caller stopped waiting (its context ended or the call returned)
+				// while the response was on its way to it. Nobody waits for this
+				// response any more, so it is treated like every other response
+				// without a pending request and passed to the handler below instead
+				// of being dropped silently.
 			}
-			// Consume the rest of the stream before continuing the loop.
-			_, err = xmlstream.Copy(discard, inner)
-			if err != nil {
-				return err
-			}
-			return nil
 		}
 	}
 
